@@ -290,7 +290,16 @@ class GGen:
             rules.append([nm, memo, alts])
         if not self.rare_pending and any(f.startswith("keyword-only-as:") for f in self.feats) and '"NAME"' not in __import__("json").dumps(rules):
             rules[-1][2].append([[[None, ["tok", "NAME"]]], None])  # something the unreserved keyword could be mistaken for
-        rules.insert(0, ["start", False, [[[["e", ["ref", "r1"]], [None, ["tok", "ENDMARKER"]]], '("S", e)'], [[["e", ["ref", "r1"]]], '("P", e)']]])
+        # the end of input is written ENDMARKER or '$' (the metagrammar has alternatives of its own for the latter),
+        # sometimes behind a cut: once r1 matched, only the end of input may follow
+        end = ["tok", "$"] if self.p(0.4) else ["tok", "ENDMARKER"]
+        first = [["e", ["ref", "r1"]], [None, end]]
+        if self.p(0.3):
+            self.feats.add("cut-before-end-of-input")
+            first.insert(1, [None, ["cut"]])
+        if end[1] == "$":
+            self.feats.add("dollar-for-endmarker")
+        rules.insert(0, ["start", False, [[first, '("S", e)'], [[["e", ["ref", "r1"]]], '("P", e)']]])
         return rules
 
 
